@@ -30,6 +30,12 @@ func runProc(timeout time.Duration, dir string, env []string, argv ...string) Pr
 
 // runProcStdin is runProc with the given bytes on standard input (nil: no stdin).
 func runProcStdin(timeout time.Duration, dir string, env []string, stdin []byte, argv ...string) ProcResult {
+	return runProcOpts(timeout, dir, env, stdin, false, argv...)
+}
+
+// runProcOpts: deadStdout gives the child a pipe on stdout whose read end is already closed
+// (`cmd | true` after the reader has gone): every write to it raises SIGPIPE / EPIPE.
+func runProcOpts(timeout time.Duration, dir string, env []string, stdin []byte, deadStdout bool, argv ...string) ProcResult {
 	ctx, cancel := context.WithTimeout(context.Background(), timeout)
 	defer cancel()
 	c := exec.CommandContext(ctx, argv[0], argv[1:]...)
@@ -42,6 +48,13 @@ func runProcStdin(timeout time.Duration, dir string, env []string, stdin []byte,
 	c.WaitDelay = 2 * time.Second
 	var so, se bytes.Buffer
 	c.Stdout, c.Stderr = &so, &se
+	if deadStdout {
+		if pr, pw, err := os.Pipe(); err == nil {
+			pr.Close()
+			c.Stdout = pw
+			defer pw.Close()
+		}
+	}
 	if stdin != nil {
 		c.Stdin = bytes.NewReader(stdin)
 	}
